@@ -80,6 +80,7 @@ def run(ctx, rep):
         check_sc(crate, rep, cfg)
         check_lookup(crate, rep, cfg)
         check_in(crate, rep, cfg)
+        check_concat(crate, rep, cfg)
         # "exactly one level of undefined" in the fused path instructions (shared with C09)
         from props import c09
         c09.check_fused_load(crate, crate.one("vm::interpreter::VirtualMachine::<'tera>::interpret"), rep, cfg)
@@ -525,3 +526,24 @@ def check_in(crate, rep, cfg):
         ok = ok and bool(oks)
     rep.add("C02.IN", "C02.IN:array:element-wise-value-eq", ok, b.where(cont[0][0]) if cont else b.where(0), "`in` on an array is <[Value]>::contains(needle): element-wise `==` of Value, "
             "the same relation as the `==` operator" + ("" if ok else " — VIOLATED: " + why))
+
+
+def check_concat(crate, rep, cfg):
+    """C02.CONCAT — "the output of `~` is always a string": in the StrConcat arm the value pushed is built by Value::from(String) (the joined
+    text / format!) on every path — never one of the popped operands handed back as it is (an integer `~ ""` would stay an integer)."""
+    from props.c03 import vm_arm
+    vm = crate.one("vm::interpreter::VirtualMachine::<'tera>::interpret")
+    tr = Tracer(vm, transparent=set())
+    reg = vm_arm(vm, crate, "StrConcat")
+    pushes = [(bb, t) for bb, t in vm.calls(sorted(reg)) if callee_def(t).endswith("stack::Stack::push")]
+    ok = len(pushes) >= 1
+    why = "no push in the arm"
+    for bb, t in pushes:
+        ls = [l for l in tr.operand(t["args"][1]) if l.kind != "cycle"]
+        for l in ls:
+            good = l.kind == "call" and l.detail[0].endswith("::from") and str((vm.term(l.detail[2]).get("atys") or [""])[0]) in ("std::string::String", "String")
+            if not good:
+                ok, why = False, "the value pushed can be %s (an operand handed back, not a built string)" % leaf_str(l)
+        ok = ok and bool(ls)
+    rep.add("C02.CONCAT", "C02.CONCAT:vm:always-a-built-string", ok, vm.where(pushes[0][0]) if pushes else vm.where(0), "the StrConcat arm pushes Value::from(<String built from both operands>) "
+            "on every path" + ("" if ok else " — VIOLATED: " + why))
